@@ -19,6 +19,7 @@ BASE_TRUSTED = [
     "Lean 4.33.0 kernel (thorough tier: re-checked with leanchecker)",
     "axioms reported by #print axioms for every property theorem, required to be a subset of {propext, Classical.choice, Quot.sound}; no native_decide / bv_decide / sorry / own axioms (grep on every run)",
     "harness/gen_tables.py (data translator) and the behavioural correspondence harness + canonicaliser",
+    "harness/pytrans.py + lean/Cardutil/Py/Rt.lean (source translator and its rendering of Python built-ins), where a source tie exists (C14-C17)",
     "CPython 3.12 as execution platform of the implementation",
 ]
 
@@ -76,6 +77,14 @@ def check(mod, prop, tier, seed, no_build=False):
     run.use_model = tie.driver_ok
     mod.explore(run, tier)
     searched = False
+    src_broken = sorted(m for m, e in tie.source.items() if e.get('status') != 'proved')
+    if src_broken and not (tie.failures or run.mismatches or run.violations) and tier == 'quick':
+        # the source changed in a way the translator / the equality proofs do not follow: the source tie is not
+        # established, the correspondence still is — look harder (thorough generators) before saying "held"
+        searched = True
+        run.search_deadline = time.time() + 240
+        run.notes.append(f'source tie not established for SrcTie modules {src_broken}: thorough generators were run')
+        mod.explore(run, 'thorough')
     if (tie.failures or run.mismatches) and not run.violations:
         # the tie is broken: search model and implementation for a concrete failing input
         searched = True
@@ -151,6 +160,7 @@ def check(mod, prop, tier, seed, no_build=False):
         'exhaustive': False,
         'notes': run.notes,
         'tie_failures': tie.failures,
+        'source_tie': tie.source or 'none for this property (behavioural correspondence only)',
         'failing_input_search_ran': searched,
         'build_audit_s': round(tie.build_s, 2),
     }
